@@ -411,6 +411,26 @@ def stream_texts(ctx, n, name="verbatim-texts"):
         want_s = [(c["inp"].rstrip(), c["rtn"], c["ts"][0]) for c in cmds]
         if got_s != want_s:
             ctx.spec_failure(case | {"backend": "sqlite"}, {"got": got_s, "want": want_s}, "SQLite history read-back differs from what was appended (modulo trailing whitespace)", None)
+        # ---- SQLite with $HISTCONTROL=ignoredups, commands as the shell supplies them (text + newline), every one typed twice
+        if not any(0xD800 <= ord(ch) <= 0xDFFF for c in cmds for ch in c["inp"]):
+            from xonsh.built_ins import XSH
+
+            setattr(hs.XH_SQLITE_CACHE, hs.XH_SQLITE_CREATED_SQL_TBL, False)
+            with XSH.env.swap(HISTCONTROL={"ignoredups"}):
+                sh2 = hs.SqliteHistory(filename=os.path.join(root, "h2.sqlite"), gc=False)
+                typed = []
+                for c in cmds:
+                    for rep in range(2):
+                        d = dict(c)
+                        d["inp"] = c["inp"].rstrip() + "\n"
+                        d["ts"] = [c["ts"][0] + rep * 0.25, c["ts"][1] + rep * 0.25]
+                        typed.append(d["inp"].rstrip())
+                        sh2.append(d)
+                got2 = [r["inp"] for r in sh2.items()]
+            want2 = [t for i, t in enumerate(typed) if i == 0 or typed[i - 1] != t]
+            if got2 != want2:
+                ctx.spec_failure(case | {"backend": "sqlite", "HISTCONTROL": "ignoredups", "typed_twice_with_newline": True}, {"got": got2, "want": want2},
+                                 "with ignoredups the SQLite store is not the typed commands with repeats of the previous command left out", None)
         shutil.rmtree(root, ignore_errors=True)
 
 
@@ -551,6 +571,75 @@ def replay_known(ctx):
             ctx.spec_failure({"stream": "known-witness", **w}, {"len": obs[i - 1][1], "index": eff[i][1], "result": "IndexError"}, f["what"], f["key"])
 
 
+# ------------------------------------------------------------------ the command loop records every executed command once
+LOOP_LINES = ["x = 1", "y = 'two words'", "1/0", "raise SystemExit", "import sys; sys.exit(3)", "raise KeyboardInterrupt", "z = [1, 2]", "undefined_name_xv", "x += 1"]
+
+
+def _loop_records(item):
+    """lines typed into the real command loop body (BaseShell.default) with a real JsonHistory: what the history holds afterwards"""
+    import contextlib
+    import io
+
+    lines, seed = item
+    common.setup_repo_imports()
+    import builtins
+
+    import xonsh.history.json as hj
+    from xonsh.built_ins import XSH
+    from xonsh.execer import Execer
+    from xonsh.shells.base_shell import BaseShell
+
+    if not getattr(builtins, "__xv_c12_loop__", False):
+        XSH.load(execer=Execer(), inherit_env=False)
+        builtins.__xv_c12_loop__ = True
+    root = str(common.scratch_root() / ("c12l-" + uuid.uuid4().hex[:8]))
+    os.makedirs(os.path.join(root, "history_json"))
+    env = XSH.env
+    env["XONSH_DATA_DIR"] = root
+    env["HISTCONTROL"] = set()
+    env["XONSH_SHOW_TRACEBACK"] = False
+    env["XONSH_STORE_STDOUT"] = False
+    XSH.history = hist = hj.JsonHistory(gc=False, buffersize=3)
+    shell = BaseShell(execer=XSH.execer, ctx={"__name__": "xv"})
+    XSH.shell = type("S", (), {"shell": shell})()
+    try:
+        for ln in lines:
+            buf = io.StringIO()
+            with contextlib.redirect_stderr(buf), contextlib.redirect_stdout(buf):
+                try:
+                    shell.default(ln + "\n")
+                except (SystemExit, KeyboardInterrupt):
+                    pass  # the command loops catch these (or leave after the history was written)
+        hf = hist.flush(at_exit=True)  # (an at-exit flush runs synchronously)
+        if hf is not None and hf.is_alive():
+            hf.join(30)
+        mem = [str(x).rstrip() for x in hist.inps]
+        return {"inps": mem}
+    finally:
+        XSH.history = None
+        shutil.rmtree(root, ignore_errors=True)
+
+
+def stream_loop(ctx, n, name="command-loop-records-every-command"):
+    ctx.stream_rule(
+        name,
+        "lines run through the real BaseShell.default with a real JsonHistory (buffer 3, flushed at the end): assignments, a "
+        "failing expression, an undefined name, `raise SystemExit`, `sys.exit(3)`, `raise KeyboardInterrupt`; afterwards the history "
+        "holds every executed line exactly once, in order, verbatim — however the command ended; non-trivial = every sequence",
+    )
+    items = [[[ctx.rng.choice(LOOP_LINES) for _ in range(ctx.rng.randint(2, 7))], ctx.rng.randrange(1 << 30)] for _ in range(n)]
+    results = common.map_in_child(_loop_records, items, per_item_timeout=60, label="c12-loop")
+    for (lines, _), res in zip(items, results):
+        if res == common.HANG or (isinstance(res, dict) and "__exc__" in res):
+            raise common.InfraError(f"C12 command-loop worker failed: {res}")
+        ctx.case(name, repr(lines), True, {"lines": lines})
+        for ln in lines:
+            ctx.count("loop/" + ("exit" if "xit" in ln else "interrupt" if "Interrupt" in ln else "other"))
+        if res["inps"] != lines:
+            ctx.spec_failure({"stream": name, "lines": lines}, {"history_holds": res["inps"]},
+                             "the history does not hold every executed command exactly once, in order", None)
+
+
 def run(ctx):
     common.setup_repo_imports()
     ctx.assumptions += [
@@ -566,6 +655,7 @@ def run(ctx):
     stream_late_flushers(ctx, ctx.n(25, 300))
     stream_texts(ctx, ctx.n(40, 500))
     stream_index(ctx, ctx.n(300, 5000))
+    stream_loop(ctx, ctx.n(40, 500))
 
 
 def search(ctx, reason):
